@@ -1206,6 +1206,20 @@ SPECS.append(dict(name="TK.block_size", group="TlsKeys", file=TKF, func="Session
                   select={"start": "block_size = 0", "end": "if algo in [AES, AESCCM, AESGCM, Camellia]:"},
                   params=[("algo0", ALG)], outs=[("block_size", "Nat")],
                   consts={**ALG_CONSTS, "cipher_suite['CryptoAlgo'][0]": ("algo0", ALG)}))
+# the end of generate_keys: the block-size table and the `Decryptor(...)` call — which resolved-suite field goes to which constructor
+# parameter (the constructor itself is group Decrypt2; here it is the external `mk_decryptor`, the values read from the suite dict are parameters)
+SPECS.append(dict(name="TK.install", group="TlsKeys", file=TKF, func="Session.generate_keys", theorem="TlsKeys.install_eq_model",
+                  select={"start": "block_size = 0", "end": "self.decryptor = Decryptor("},
+                  tparams=["μ", "η", "κ", "ε", "δ"], st_tparams=["δ"], params=[("algo0", ALG), ("mode0", "μ"), ("mac", "η"), ("keys", "κ"), ("key_length", "Nat"),
+                                                           ("digest_size", "Nat"), ("tag_length", "Option Nat")],
+                  externals=[("mk_decryptor", f"{ALG} → μ → η → κ → Option {VER} → Nat → Nat → Option Nat → Nat → ε → Nat → δ")],
+                  places=[("self.decryptor", "decryptor", "δ", "rw"), ("self.tls_version", "tls_version", f"Option {VER}", "r"),
+                          ("self.extensions", "extensions", "ε", "r"), ("self.compression_method", "compression_method", "Nat", "r")],
+                  consts={**ALG_CONSTS, "cipher_suite['CryptoAlgo'][0]": ("algo0", ALG), "cipher_suite['Mode'][0]": ("mode0", "μ"),
+                          "cipher_suite['MAC']": ("mac", "η"), "cipher_suite['KeyLength']": ("key_length", "Nat"),
+                          "cipher_suite['MAC'].digest_size": ("digest_size", "Nat"), "cipher_suite['TagLength']": ("tag_length", "Option Nat")},
+                  calls={"Decryptor": dict(lean="mk_decryptor", args=[ALG, "μ", "η", "κ", f"Option {VER}", "Nat", "Nat", "Option Nat", "Nat", "ε", "Nat"],
+                                           ret="δ")}))
 
 # dpkt_dsb.py (C12): `DecryptionSecretBlock.unpack`. dpkt itself is outside the subset (struct formats built by a metaclass): the
 # header unpack `dpkt.Packet.unpack(self, buf)` is stated as the two fields the method reads, from the externals `hdr_len` (raises where
@@ -2143,6 +2157,22 @@ def _tk_cases(rng, call):
         k, r = call(f_blk, {"CryptoAlgo": (getattr(ses, name), False)} if hasattr(ses, name) else None)
         if k == "ok":
             out.append(("(fun a => (TK.block_size a).block_size)", term, str(r[0])))
+    f_ins = frag({"start": "block_size = 0", "end": "self.decryptor = Decryptor("}, ["self", "cipher_suite", "keys", "Decryptor"], "self.decryptor")
+    for name, (term, _) in ALG_CONSTS.items():
+        if not hasattr(ses, name):
+            continue
+        kl_, ds_, tl_, m_, k_, ex_, c_ = (rng.randint(0, 40) for _ in range(7))
+        tl_ = rng.choice([None, tl_])
+        v = rng.choice(list(ses.TlsVersion))
+        me = types.SimpleNamespace(tls_version=v, extensions=ex_, compression_method=c_, decryptor=None)
+        suite = {"CryptoAlgo": (getattr(ses, name), False), "Mode": (m_, None), "MAC": types.SimpleNamespace(digest_size=ds_, code=2),
+                 "KeyLength": kl_, "TagLength": tl_}
+        k, r = call(f_ins, me, suite, k_, lambda *a: list(a))
+        a = r[0]
+        exp = [a[1], a[2].code, a[3], 12 if a[4] == ses.TlsVersion.TLS12 else 0, a[5], a[6], 99 if a[7] is None else a[7], a[8], a[9], a[10]]
+        out.append(("(fun a v => (TK.install (fun _ m mac k v kl ds tl bs ex c => [m, mac, k, (if v = some TLX.Session.Ver.tls12 then 12 else 0), kl, ds, "
+                    f"tl.getD 99, bs, ex, c]) a {m_} 2 {k_} {kl_} {ds_} {'none' if tl_ is None else f'(some {tl_})'} v {ex_} {c_}).decryptor)",
+                    f"{term} {vopt(v)}", "[" + ", ".join(str(x) for x in exp) + "]"))
     return out
 
 
